@@ -635,5 +635,11 @@ class DB:
                 return hashX, value
             return [lookup_utxo(*hashX_pair) for hashX_pair in hashX_pairs]
 
-        hashX_pairs = await run_in_thread(lookup_hashXs)
-        return await run_in_thread(lookup_utxos, hashX_pairs)
+        # The suffixes only identify UTXOs in the DB they were read from.  If the UTXO DB
+        # was flushed meanwhile start again; after a reorg another UTXO can have the same key.
+        while True:
+            state = self.state
+            hashX_pairs = await run_in_thread(lookup_hashXs)
+            utxos = await run_in_thread(lookup_utxos, hashX_pairs)
+            if state is self.state:
+                return utxos
